@@ -1120,6 +1120,11 @@ def run(prog, tier, seed):
     from ..report import adopt
     dep = adopt(T.results(T(c17.rule_bdd5, prog)), PROP,
                 'the ordering both notations are built under')
+    # a table that survives a call of a parser (a cache of parsed
+    # expressions) makes the diagram of one notation depend on the history
+    from . import c16 as _c16
+    dep = dep + adopt(T.results(T(_c16.rule_hc8, prog)), PROP,
+                      'tables that outlive a call of the parsers')
     # the two notations give the *same* OBDD only if node construction finds
     # the node that already exists and terminals accept 0 / 1 only
     from . import c16
